@@ -243,6 +243,9 @@ def history(seed: int, nsteps: int = 10, sources=None) -> list:
         handles = {}
         k = 0
         saved_targets: dict = {}
+        disk_targets: dict = {}
+        added: dict = {}
+        removed: list = []
         deleted_any = False
 
         def body_handle(fresh: bool):
@@ -251,10 +254,16 @@ def history(seed: int, nsteps: int = 10, sources=None) -> list:
                 handles["body"] = doc.body
             return handles["body"]
 
+        # one history out of five keeps saving onto the SAME file or folder while parts come and go
+        resave = rng.random() < 0.2
+        resave_pack = rng.choice(["folder", "folder", "zip"])
         for _ in range(nsteps):
             k += 1
-            op = rng.choice(["edit", "edit", "edit", "set_part", "del_part", "add_file", "add_file", "save", "save", "save", "reopen", "clone", "read"]
-                            + (["save_twin", "save_twin"] if "twin" in handles else []))
+            if resave:
+                op = rng.choice(["add_file", "add_file", "del_part", "del_part", "save", "save", "save", "edit", "reopen"])
+            else:
+                op = rng.choice(["edit", "edit", "edit", "set_part", "del_part", "add_file", "add_file", "save", "save", "save", "reopen", "clone", "read"]
+                                + (["save_twin", "save_twin"] if "twin" in handles else []))
             ev = {"op": op}
             try:
                 if op == "edit":
@@ -286,7 +295,8 @@ def history(seed: int, nsteps: int = 10, sources=None) -> list:
                         name = rng.choice(binaries)
                         data = f"binary {seed} {k}".encode()
                     else:
-                        name = "content.xml"
+                        # full name or the documented shortcut ("content" for "content.xml")
+                        name = rng.choice(["content.xml", "content"])
                         # a modified copy of the current content given as bytes
                         cur = doc.get_part("content.xml").serialize()
                         root0 = etree.fromstring(cur)
@@ -294,6 +304,7 @@ def history(seed: int, nsteps: int = 10, sources=None) -> list:
                         data = etree.tostring(root0)
                         handles.pop("body", None)  # the caller replaced the part: old handles are void
                     doc.set_part(name, data)
+                    name = "content.xml" if name == "content" else name
                     ev["part"] = name
                     ev["new"] = part_ids(name, data, ids)
                     known.add(name)
@@ -302,7 +313,12 @@ def history(seed: int, nsteps: int = 10, sources=None) -> list:
                     if not cands:
                         continue
                     name = rng.choice(sorted(cands))
+                    mine = sorted(n for n in cands if n in added)
+                    if mine and rng.random() < 0.5:
+                        name = rng.choice(mine)  # a file this history added: its content may be added again later
                     doc.del_part(name)
+                    if name in added:
+                        removed.append(added.pop(name))
                     deleted_any = True
                     ev["part"] = name
                     known.discard(name)
@@ -320,6 +336,8 @@ def history(seed: int, nsteps: int = 10, sources=None) -> list:
                     known.add(uri)
                 elif op == "add_file":
                     content = f"blob {rng.randint(0, 2)} of {seed}".encode() * 3
+                    if removed and rng.random() < 0.5:
+                        content = rng.choice(removed)  # the very content of a part deleted earlier
                     if rng.random() < 0.5:
                         uri = doc.add_file(io.BytesIO(content))
                     else:
@@ -329,24 +347,39 @@ def history(seed: int, nsteps: int = 10, sources=None) -> list:
                     ev["part"] = uri
                     ev["new"] = part_ids(uri, content, ids)
                     known.add(uri)
+                    added[uri] = content
                 elif op == "save":
                     # flat XML embeds the images the content refers to: not meaningful once a referenced part was deleted
                     packaging = rng.choice(["zip", "zip", "zip", "folder", "xml"] if not deleted_any else ["zip", "zip", "folder"])
+                    if resave:
+                        packaging = resave_pack
                     pretty = rng.choice([False, False, True]) if packaging == "zip" else True
                     tkey = f"t{k}"
+                    # one save out of three goes onto a target written by an earlier save of the same packaging
+                    # (the file or folder is replaced: nothing of the earlier save may survive)
+                    again = sorted(t for t, (pk, _b) in disk_targets.items() if pk == packaging)
+                    base = None
+                    if again and rng.random() < (0.9 if resave else 0.34):
+                        tkey = rng.choice(again)
+                        base = disk_targets[tkey][1]
+                        ev["again"] = True
                     ev.update(target=tkey, packaging=packaging, pretty=pretty)
                     if packaging == "zip":
-                        if rng.random() < 0.5:
+                        if base is not None:
+                            target = base
+                        elif rng.random() < 0.5 and not resave:
                             target = io.BytesIO()
                         else:
                             target = tmp / f"out{k}.od"
+                            disk_targets[tkey] = ("zip", target)
                         doc.save(target, pretty=pretty)
                         parts, zinfo = read_zip(target)
                         zinfo["mimetype_ok"] = parts.get("mimetype", b"").decode() == doc.mimetype
                         ev["zip"] = zinfo
                         saved_targets[tkey] = target
                     elif packaging == "folder":
-                        target = tmp / f"out{k}"
+                        target = base if base is not None else tmp / f"out{k}"
+                        disk_targets[tkey] = ("folder", target)
                         doc.save(target, packaging="folder")
                         parts = read_folder(Path(str(target) + ".folder"))
                         saved_targets[tkey] = Path(str(target) + ".folder")
